@@ -1,8 +1,10 @@
 //! vcheck — bounded exhaustive exploration of keepsimple1/mdns-sd (see /verif/DESIGN.md).
 mod c01;
 mod c02;
+mod c07;
 mod fw;
 mod indep;
+mod scn;
 mod sim;
 
 fn main() {
@@ -18,6 +20,7 @@ fn main() {
     let code = match id {
         "C01" => c01::check(tier),
         "C02" => c02::check(tier),
+        "C07" => c07::check(tier),
         _ => {
             eprintln!("unknown check {id}");
             2
